@@ -211,6 +211,8 @@ def run(repo: Repo, rep: Report, tier: str) -> None:
     assoc = repo.mod("association")
     ci = repo.cls("association", "Association")
     n_send = 0
+    # methods of the class that raise explicitly (not inside a handler that is a bare re-raise of something caught)
+    raising = {mn for mn, mf in ci.methods.items() if any(isinstance(x, ast.Raise) and x.exc is not None for x in walk_no_nested(mf)) and not mn.startswith("send_")}
     for name, fn in ci.methods.items():
         if not name.startswith("send_"):
             continue
@@ -233,6 +235,20 @@ def run(repo: Repo, rep: Report, tier: str) -> None:
 
         ok, w = cfg.must_pass(clr[0], lambda n: is_set(n) or hands_over(n), {cfg.exit.id})
         rep.check(ok, "checkpoint", fq, "clear() ... exit without set()", "a path from _reactor_checkpoint.clear() leaves the function without set() (and without handing over to a response generator): the reactor stays paused", mod=assoc, node=clr[0].ast, path=[f"L{x.line}" for x in w if x.ast is not None][-12:])
+        # ... nor by an exception: an explicit `raise`, or a call of one of the class's own methods that raises
+        # explicitly (e.g. _get_valid_context: ValueError when no context fits), between clear() and set()
+        def may_raise(node, raising=raising):
+            for x in ast.walk(node):
+                if isinstance(x, ast.Raise):
+                    return True
+                if isinstance(x, ast.Call) and isinstance(x.func, ast.Attribute) and norm(x.func.value) == "self" and x.func.attr in raising:
+                    return True
+            return False
+
+        cfg_x = CFG(fn, body=body_nodoc(fn), may_raise=may_raise)
+        clr_x = [n for n in cfg_x.nodes if n.kind == "stmt" and any(dotted(c.func) == "self._reactor_checkpoint.clear" for c in calls_at(n))]
+        okx, wx = cfg_x.must_pass(clr_x[0], lambda n: is_set(n) or hands_over(n), {cfg_x.raise_exit.id})
+        rep.check(okx, "checkpoint", fq, "clear() ... raise without set()", "between _reactor_checkpoint.clear() and set() the function can leave by an exception (an explicit raise, or a method of the association that raises, such as _get_valid_context): the caller gets the exception and the reactor stays paused for the rest of the association - the peer's release request is never answered and no timeout is enforced", mod=assoc, node=clr_x[0].ast, path=[f"L{x.line}" for x in wx if x.ast is not None][-12:])
         if is_gen_wrapper:
             continue
         # single response: `if rsp is None: self._handle_no_response(); return Dataset()`
